@@ -433,7 +433,9 @@ class Reporter:
         self.ctx, self.seen, self.shrinks_left = ctx, {}, max_shrinks
 
     def report(self, prop_clause, observed, comp, value, trig, detail, failing=None, extra_features=(), what=None, fixed_features=None):
-        coarse = (prop_clause, observed, tuple(narrow_features(comp)))
+        # (witnesses with a fixed signature — corpus entries of recorded findings — are told apart by that signature, not by the
+        #  coarse feature list, which two different findings may share)
+        coarse = (prop_clause, observed, tuple(fixed_features) if fixed_features is not None else tuple(narrow_features(comp)))
         if coarse in self.seen:
             self.seen[coarse] += 1
             self.ctx.count(f"violations_duplicate[{prop_clause}/{observed}]")
